@@ -79,10 +79,26 @@ def run_task(task):
                     row.append(v)
                 lists.append(row)
             first_ties = [[0] * len(r) for r in lists]
+
+            def quotas(k, tag, parts):
+                # arbitrary quotas 0 <= lower (<= target) <= upper: the relation must hold whatever they are
+                cols = [[] for _ in range(parts)]
+                for _ in range(k):
+                    prev = None
+                    for c in range(parts):
+                        v = e.fresh_int(tag)
+                        e.assume((v >= 0) & (v <= n1 + 1))
+                        if prev is not None:
+                            e.assume(v.t >= prev.t)
+                        prev = v
+                        cols[c].append(v)
+                return cols
             if kind == 'hr':
                 second, sties = g.create_pref_lists_from_other_lists(lists, n2, 0.5)
+                plo, pup = quotas(n2, 'pq', 2)
+                e.notes['lq'] = [[S.term_of(v) for v in col] for col in (plo, pup)]
                 text = ns.ghr.Generator_ha_sm_hr().create_instance(
-                    n1, n2, lists, first_ties, second, sties, [0] * n2, [n1] * n2, 'info\n')
+                    n1, n2, lists, first_ties, second, sties, plo, pup, 'info\n')
                 plec = list(range(1, n2 + 1))
             else:
                 gen = ns.gspa.Generator_spa()
@@ -91,8 +107,11 @@ def run_task(task):
                 boxed = [S.SymInt(z3.IntVal(int(v))) for v in plec]
                 sl = gen.create_student_lec_lists(lists, boxed, n3)
                 second, sties = g.create_pref_lists_from_other_lists(sl, n3, 0.5)
-                text = gen.create_instance(n1, n2, n3, lists, first_ties, plec, [0] * n2, [n1] * n2,
-                                           second, sties, [0] * n3, [0] * n3, [n1] * n3, 'info\n')
+                plo, pup = quotas(n2, 'pq', 2)
+                llo, ltg, lup = quotas(n3, 'lq', 3)
+                e.notes['lq'] = [[S.term_of(v) for v in col] for col in (plo, pup, llo, ltg, lup)]
+                text = gen.create_instance(n1, n2, n3, lists, first_ties, plec, plo, pup,
+                                           second, sties, llo, ltg, lup, 'info\n')
             e.notes['lists'] = [[S.term_of(v) for v in r] for r in lists]
             e.notes['plec'] = plec
             return text
@@ -113,25 +132,29 @@ def run_task(task):
 
         def conc(m):
             return [[m.eval(t, model_completion=True).as_long() for t in r] for r in lists] if lists else None
+
+        def concq(m):
+            lq = p.notes.get('lq')
+            return [[m.eval(t, model_completion=True).as_long() for t in col] for col in lq] if lq else None
         if p.exc is not None:
             s = z3.Solver()
             s.add(*p.pc)
             s.check()
             res['cex'].append({'tag': 'exception/%s' % type(p.exc).__name__, 'what': 'raised %r' % (p.exc,),
-                               'data': dict(task, lists=conc(s.model()))})
+                               'data': dict(task, lists=conc(s.model()), quotas=concq(s.model()))})
             continue
 
         def ent(tok):
             t = p.tokens.get(tok)
             return t if t is not None else z3.IntVal(int(tok))
         try:
-            J = spec.parse_text(p.result, 2 if kind == 'hr' else 3, True, num=int, ent=ent)
+            J = spec.parse_text(p.result, 2 if kind == 'hr' else 3, True, num=ent, ent=ent)
         except Exception as ex:  # noqa
             s = z3.Solver()
             s.add(*p.pc)
             s.check()
             res['cex'].append({'tag': 'unreadable', 'what': 'generated text not in the documented format: %r' % (ex,),
-                               'data': dict(task, lists=conc(s.model()))})
+                               'data': dict(task, lists=conc(s.model()), quotas=concq(s.model()))})
             continue
         plec = p.notes['plec']
         claims = []
@@ -158,7 +181,7 @@ def run_task(task):
             res['unknown'] += 1
         else:
             res['cex'].append({'tag': 'membership/%s' % kind, 'what': 'a second-side list does not rank exactly the agents that find it acceptable',
-                               'data': dict(task, lists=conc(m))})
+                               'data': dict(task, lists=conc(m), quotas=concq(m))})
     res['sample'] = dict(task, paths=len(paths), example=(paths[0].result.split('\n')[:n1 + nsec + n2 + 2] if paths and paths[0].exc is None else None))
     return res
 
@@ -173,8 +196,11 @@ def replay(cex):
     import random
     kind, n1, n2, n3 = d['kind'], d['n1'], d['n2'], d['n3']
     bad, notes = False, []
-    if d.get('probe'):
-        bad_probe = False
+    q = d.get('quotas')
+    if kind == 'hr':
+        plo, pup = q if q else ([0] * n2, [n1] * n2)
+    else:
+        plo, pup, llo, ltg, lup = q if q else ([0] * n2, [n1] * n2, [0] * n3, [0] * n3, [n1] * n3)
     for seed in range(5 if not d.get('probe') else 1):
         random.seed(seed)
         np.random.seed(seed)
@@ -182,7 +208,7 @@ def replay(cex):
             ft = [np.zeros(len(r), dtype=int) for r in lists]
             if kind == 'hr':
                 second, sties = ns.gshared.create_pref_lists_from_other_lists([np.array(r) for r in lists], n2, 0.5)
-                text = ns.ghr.Generator_ha_sm_hr().create_instance(n1, n2, lists, ft, second, sties, [0] * n2, [n1] * n2, 'info\n')
+                text = ns.ghr.Generator_ha_sm_hr().create_instance(n1, n2, lists, ft, second, sties, plo, pup, 'info\n')
                 plec = list(range(1, n2 + 1))
                 J = spec.parse_text(text, 2, True)
             else:
@@ -190,8 +216,7 @@ def replay(cex):
                 plec = gen.create_project_lecturers(n2, n3)
                 sl = gen.create_student_lec_lists(lists, plec, n3)
                 second, sties = ns.gshared.create_pref_lists_from_other_lists(sl, n3, 0.5)
-                text = gen.create_instance(n1, n2, n3, lists, ft, plec, [0] * n2, [n1] * n2, second, sties,
-                                           [0] * n3, [0] * n3, [n1] * n3, 'info\n')
+                text = gen.create_instance(n1, n2, n3, lists, ft, plec, plo, pup, second, sties, llo, ltg, lup, 'info\n')
                 J = spec.parse_text(text, 3, True)
         except Exception as e:  # noqa
             return True, 'first-side lists %s: real generator code raised %r' % (lists, e)
@@ -217,7 +242,7 @@ def replay(cex):
             b2, t2 = replay({'data': {'kind': k2, 'n1': a1, 'n2': a2, 'n3': a3, 'lists': ls, 'probe': True}})
             if b2:
                 return True, 'not visible on the small lists of the symbolic counterexample %s; shown on a probe with larger identifiers:\n%s' % (lists, t2)
-    return bad, 'first-side lists %s (%s n1=%d n2=%d n3=%d)\n%s' % (lists if len(str(lists)) < 200 else str(lists)[:200] + '...', kind, n1, n2, n3, '\n'.join(notes) or 'all second-side lists correct')
+    return bad, 'first-side lists %s quotas %s (%s n1=%d n2=%d n3=%d)\n%s' % (lists if len(str(lists)) < 200 else str(lists)[:200] + '...', q, kind, n1, n2, n3, '\n'.join(notes) or 'all second-side lists correct')
 
 
 def describe_task(t):
